@@ -17,7 +17,7 @@ def kvAll (k : String) : List Tree → List String
 
 def parseFault (s : String) : WFault :=
   if s.startsWith "f" then .failAfter ((s.drop 1).toString.toNat?.getD 0)
-  else if s.startsWith "s" then .short ((s.drop 1).toString.toNat?.getD 0)
+  else if s.startsWith "s" || s.startsWith "S" then .short ((s.drop 1).toString.toNat?.getD 0)
   else .none
 
 def evStr : Ev → String
@@ -119,7 +119,8 @@ def helperOracle (hname : String) (opT : Tree) (ack : Bool) (t0 : Int) (wire : B
         s!"C09 {hname} returned nil but the bytes on the wire are not the encoding of its message"]) ++
     (if stampOk then [] else [s!"C02 {hname} is not stamped with the time of the call"]) ++
     (if !ack || wellFormedChunkID id then [] else [s!"C12 {hname}: chunk id on the wire is not a well-formed generated id"]) ++
-    (if gz then [] else ["C03 helper stream is not one complete gzip member of exactly the given entries"])
+    (if gz then [] else ["C03 helper stream is not one complete gzip member of exactly the given entries",
+       s!"C02 {hname}: the bin is not a gzip stream of the given entries, so the message is not the CompressedPackedForward it is flagged as"])
 
 structure SeqAcc where
   st : St := {}
@@ -179,7 +180,7 @@ def opSEQ (args obs : List String) : Option DecOut := do
   let cfgT ← (args.head?).bind parseTok
   let (key, ack, tmo, host) ← (match cfgT with
     | .node "CFG" [k, a, t, h] => do
-      let key ← (match k with | .atom "-" => some none | t => (treeHex t).map some)
+      let key ← (match k with | .atom "-" => some none | .atom "e" => some (some []) | t => (treeHex t).map some)
       let a ← treeBool a; let t ← treeBool t; let h ← treeHex h
       pure (key, a, t, h)
     | _ => none)
@@ -249,7 +250,8 @@ def opSEQ (args obs : List String) : Option DecOut := do
         if key.isSome && (opName == "SND" || opName == "RAW" || opName == "HLP") then
           (wroteTo.filter (fun id => !acc.authed.contains id)).eraseDups.flatMap fun id =>
             [s!"C05 event data written to connection {id} on which no handshake had succeeded",
-             s!"C06 event data written to connection {id} before a successful handshake on it"]
+             s!"C06 event data written to connection {id} before a successful handshake on it",
+             s!"C10 peer bytes left the client sending on connection {id} without a valid handshake"]
         else []
       let authed' : List String :=
         if opName == "HS" && res == "ok" then
@@ -304,7 +306,8 @@ def opSEQ (args obs : List String) : Option DecOut := do
           if isSend && (match sess with | some (_, true) => true | _ => false) then
             match expected with
             | some e =>
-              (if res == "ok" && wire != e then ["C09 success although the connection did not accept the whole encoding"] else []) ++
+              (if res == "ok" && wire != e then ["C09 success although the connection did not accept the whole encoding",
+                "C08 a send reported success but its message is not on the wire whole and exactly once"] else []) ++
               (if wire.isPrefixOf e then [] else ["C09 accepted bytes are not a prefix of the encoding"]) ++
               (if !allWritesOk evs && res == "ok" then ["C09 a failed or short write was reported as success"] else [])
             | none =>
@@ -335,6 +338,7 @@ def opSEQ (args obs : List String) : Option DecOut := do
               | some a, some c => a == c
               | _, _ => false
             (if (res == "ok") == acked then [] else [s!"C04 Send={res} but peer-acknowledged-this-chunk={acked}"]) ++
+            (if res == "ok" && !acked then ["C08 a send was matched with a response that is not the ack for its own chunk"] else []) ++
             (if clean && !pre.isEmpty then ["C04 part of an earlier conforming ack was left unread on the connection"] else []) ++
             (if tmo && expected == some wire && !(evs.any (·.startsWith "dl")) then ["C04 no read deadline armed before waiting for the ack"] else [])
           else []
